@@ -22,7 +22,8 @@ COQ = os.path.join(ROOT, "coq")
 OCAML = os.path.join(ROOT, "ocaml")
 HARNESS = os.path.join(ROOT, "rust", "harness")
 TARGET = os.path.join(ROOT, "rust", "target")
-EVIDENCE = os.path.join(ROOT, "evidence")
+# evidence of runs against a scratch copy (VERIF_REPO, used to try seeded changes) never replaces the evidence of /repo itself
+EVIDENCE = os.path.join(ROOT, "evidence") if REPO == "/repo" else os.path.join(ROOT, "build", "evidence-scratch")
 REPLAYS = os.path.join(ROOT, "replays")
 BUILD = os.path.join(ROOT, "build")
 NPROC = os.cpu_count() or 4
